@@ -31,6 +31,49 @@ Proof.
       replace (j + 1 + N.of_nat i)%N with (j + N.of_nat (S i))%N by lia. reflexivity.
 Qed.
 
+(* ---------------------------------------------------------------- chunks *)
+
+Lemma firstn_slice_app (d : bytes) : forall a b, a <= b -> firstn a d ++ slice a b d = firstn b d.
+Proof.
+  unfold slice. induction d as [|x d IH]; intros a b Hab.
+  - rewrite skipn_nil, !firstn_nil. reflexivity.
+  - destruct a as [|a].
+    + simpl. rewrite Nat.sub_0_r. reflexivity.
+    + destruct b as [|b]; [lia|]. simpl. f_equal. apply IH. lia.
+Qed.
+
+Lemma concat_chunks_prefix (d : bytes) (psz : N) : (psz <> 0)%N -> forall k,
+  concat (map (fun i => slice (N.to_nat (N.of_nat i * psz))
+                              (N.to_nat (N.min (N.of_nat (length d)) ((N.of_nat i + 1) * psz))) d) (seq 0 k))
+  = firstn (N.to_nat (N.min (N.of_nat (length d)) (N.of_nat k * psz))) d.
+Proof.
+  intros Hp. induction k as [|k IH].
+  - cbn [seq map concat]. change (N.of_nat 0 * psz)%N with 0%N. rewrite N.min_0_r. reflexivity.
+  - rewrite seq_S, map_app, concat_app, IH. cbn [map concat seq plus]. rewrite app_nil_r.
+    set (len := N.of_nat (length d)).
+    destruct (N.le_gt_cases (N.of_nat k * psz) len) as [Hle|Hgt].
+    + rewrite (N.min_r len (N.of_nat k * psz)) by lia.
+      replace (N.of_nat (S k)) with (N.of_nat k + 1)%N by lia.
+      apply firstn_slice_app. lia.
+    + rewrite (N.min_l len (N.of_nat k * psz)) by lia.
+      rewrite (N.min_l len ((N.of_nat k + 1) * psz)) by lia.
+      rewrite (N.min_l len (N.of_nat (S k) * psz)) by lia.
+      unfold slice. rewrite skipn_all2 by lia. rewrite firstn_nil, app_nil_r. reflexivity.
+Qed.
+
+Lemma concat_chunks (d : bytes) (psz : N) : (psz <> 0)%N -> concat (chunks_of d psz) = d.
+Proof.
+  intros Hp. unfold chunks_of. cbv zeta. rewrite concat_chunks_prefix by exact Hp.
+  rewrite N2Nat.id. apply firstn_all2.
+  set (len := N.of_nat (length d)).
+  assert (len <= (len + psz - 1) / psz * psz)%N by lia.
+  rewrite N.min_l by lia. subst len. lia.
+Qed.
+
+Lemma chunks_length d psz : length (chunks_of d psz) = N.to_nat ((N.of_nat (length d) + psz - 1) / psz).
+Proof. unfold chunks_of. cbv zeta. rewrite map_length, seq_length. reflexivity. Qed.
+
+
 Section PartSet.
   Variable H : bytes -> bytes.
 
@@ -93,48 +136,6 @@ Section PartSet.
     - exfalso. rewrite compute_rev_neg in Eh; [discriminate|].
       apply to_int_big. unfold two64. unfold two63 in *. lia.
   Qed.
-
-  (* ---------------------------------------------------------------- chunks *)
-
-  Lemma firstn_slice_app (d : bytes) : forall a b, a <= b -> firstn a d ++ slice a b d = firstn b d.
-  Proof.
-    unfold slice. induction d as [|x d IH]; intros a b Hab.
-    - rewrite skipn_nil, !firstn_nil. reflexivity.
-    - destruct a as [|a].
-      + simpl. rewrite Nat.sub_0_r. reflexivity.
-      + destruct b as [|b]; [lia|]. simpl. f_equal. apply IH. lia.
-  Qed.
-
-  Lemma concat_chunks_prefix (d : bytes) (psz : N) : (psz <> 0)%N -> forall k,
-    concat (map (fun i => slice (N.to_nat (N.of_nat i * psz))
-                                (N.to_nat (N.min (N.of_nat (length d)) ((N.of_nat i + 1) * psz))) d) (seq 0 k))
-    = firstn (N.to_nat (N.min (N.of_nat (length d)) (N.of_nat k * psz))) d.
-  Proof.
-    intros Hp. induction k as [|k IH].
-    - cbn [seq map concat]. change (N.of_nat 0 * psz)%N with 0%N. rewrite N.min_0_r. reflexivity.
-    - rewrite seq_S, map_app, concat_app, IH. cbn [map concat seq plus]. rewrite app_nil_r.
-      set (len := N.of_nat (length d)).
-      destruct (N.le_gt_cases (N.of_nat k * psz) len) as [Hle|Hgt].
-      + rewrite (N.min_r len (N.of_nat k * psz)) by lia.
-        replace (N.of_nat (S k)) with (N.of_nat k + 1)%N by lia.
-        apply firstn_slice_app. lia.
-      + rewrite (N.min_l len (N.of_nat k * psz)) by lia.
-        rewrite (N.min_l len ((N.of_nat k + 1) * psz)) by lia.
-        rewrite (N.min_l len (N.of_nat (S k) * psz)) by lia.
-        unfold slice. rewrite skipn_all2 by lia. rewrite firstn_nil, app_nil_r. reflexivity.
-  Qed.
-
-  Lemma concat_chunks (d : bytes) (psz : N) : (psz <> 0)%N -> concat (chunks_of d psz) = d.
-  Proof.
-    intros Hp. unfold chunks_of. cbv zeta. rewrite concat_chunks_prefix by exact Hp.
-    rewrite N2Nat.id. apply firstn_all2.
-    set (len := N.of_nat (length d)).
-    assert (len <= (len + psz - 1) / psz * psz)%N by lia.
-    rewrite N.min_l by lia. subst len. lia.
-  Qed.
-
-  Lemma chunks_length d psz : length (chunks_of d psz) = N.to_nat ((N.of_nat (length d) + psz - 1) / psz).
-  Proof. unfold chunks_of. cbv zeta. rewrite map_length, seq_length. reflexivity. Qed.
 
   Lemma number_proofs_length t : forall ts j, length (number_proofs t j ts) = length ts.
   Proof. induction ts; intros; simpl; auto. Qed.
